@@ -78,6 +78,8 @@ def py2e(node, env):
         # `x1.expr` / `x1.impedances` of a Subcircuit record: the sub-circuit's impedance
         name = RENAME.get(node.value.id, node.value.id)
         return f'(.var "{name}")'
+    if isinstance(node, ast.Subscript) and isinstance(node.value, ast.Name) and isinstance(node.slice, ast.Constant) and f"{node.value.id}[{node.slice.value}]" in env:
+        return env[f"{node.value.id}[{node.slice.value}]"]
     if isinstance(node, ast.Name):
         if node.id in RENAME:
             return f'(.var "{RENAME[node.id]}")'
@@ -94,6 +96,8 @@ def py2e(node, env):
         if isinstance(node.func, ast.Name) and node.func.id in ("float", "array_sum") and len(node.args) == 1 and not node.keywords:
             # `float(array_sum(term))`: the translated term is the summand; the sum over the points is modelled by the list sum in Lean
             return py2e(node.args[0], env)
+        if isinstance(node.func, ast.Name) and node.func.id == "ones" and not node.args and [k.arg for k in node.keywords] in (["shape", "dtype"], ["shape"]):
+            return "(.num 1)"     # an array of ones: the value at every point
         if isinstance(node.func, ast.Name) and node.func.id == "len" and len(node.args) == 1 and not node.keywords:
             return '(.var "N")'   # the number of points
         if isinstance(node.func, ast.Name) and node.func.id in FUN1 and len(node.args) == 1 and not node.keywords:
@@ -316,6 +320,58 @@ def translate_zhit(out, names_out, untranslatable):
         untranslatable.append({"what": "Z-HIT kernels", "detail": str(ex)})
 
 
+def translate_fit(out, names_out, untranslatable):
+    """C12: the two rows (real, imaginary) of the error term of `_residual` and of the four weight functions."""
+    import pyimpspec.analysis.fitting as FT
+    try:
+        src = textwrap.dedent(inspect.getsource(FT._residual))
+        fn = ast.parse(src).body[0]
+        rows = None
+        for st in ast.walk(fn):
+            if isinstance(st, ast.AnnAssign) and isinstance(st.target, ast.Name) and st.target.id == "errors" and isinstance(st.value, ast.Call) \
+                    and isinstance(st.value.func, ast.Name) and st.value.func.id == "array" and isinstance(st.value.args[0], ast.List) and len(st.value.args[0].elts) == 2:
+                rows = [py2e(e, {}) for e in st.value.args[0].elts]
+        ret = [n for n in ast.walk(fn) if isinstance(n, ast.Return)]
+        if rows is None or len(ret) != 1 or ast.unparse(ret[0].value) != "weight_func(Z_exp, Z_fit) * errors":
+            raise Untranslatable("_residual: expected `errors = array([re, im])` and `return weight_func(Z_exp, Z_fit) * errors`")
+        out.append(f"/-- `_residual`: squared error of the real part, one point -/\ndef fit_err_re : E := {rows[0]}")
+        out.append(f"/-- `_residual`: squared error of the imaginary part, one point -/\ndef fit_err_im : E := {rows[1]}")
+        if sorted(FT._WEIGHT_FUNCTIONS) != ["boukamp", "modulus", "proportional", "unity"]:
+            raise Untranslatable(f"unexpected weight functions {sorted(FT._WEIGHT_FUNCTIONS)}")
+        for wname, wfn in FT._WEIGHT_FUNCTIONS.items():
+            src = textwrap.dedent(inspect.getsource(wfn))
+            fn = ast.parse(src).body[0]
+            env = {}
+            row = None
+            for st in fn.body:
+                if isinstance(st, ast.AnnAssign) and isinstance(st.target, ast.Name) and st.value is not None:
+                    t = py2e(st.value, env)
+                    env[f"{st.target.id}[0]"] = t
+                    env[f"{st.target.id}[1]"] = t
+                    env[st.target.id] = None
+                elif isinstance(st, ast.Assign) and len(st.targets) == 1 and isinstance(st.targets[0], ast.Subscript) and isinstance(st.targets[0].value, ast.Name) \
+                        and isinstance(st.targets[0].slice, ast.Constant):
+                    key = f"{st.targets[0].value.id}[{st.targets[0].slice.value}]"
+                    env[key] = py2e(st.value, env)
+                elif isinstance(st, ast.Return):
+                    if isinstance(st.value, ast.Name) and f"{st.value.id}[0]" in env:
+                        row = (env[f"{st.value.id}[0]"], env[f"{st.value.id}[1]"])
+                    else:
+                        t = py2e(st.value, env)
+                        row = (t, t)
+                elif isinstance(st, ast.Expr) and isinstance(st.value, ast.Constant):
+                    continue
+                else:
+                    raise Untranslatable(f"{fn.name}: statement {ast.unparse(st)[:60]}")
+            if row is None:
+                raise Untranslatable(f"{fn.name}: no return")
+            out.append(f"/-- `{fn.name}`, real row -/\ndef fit_w_{wname}_re : E := {row[0]}")
+            out.append(f"/-- `{fn.name}`, imaginary row -/\ndef fit_w_{wname}_im : E := {row[1]}")
+            names_out.append(wname)
+    except Untranslatable as ex:
+        untranslatable.append({"what": "fitting kernels", "detail": str(ex)})
+
+
 def translate_kkauto(out, names_out, untranslatable):
     """C10: the noise <-> pseudo chi-squared conversion of kramers_kronig/utility.py and the standard deviation of
     the mock data's noise model (`sd = noise / 100 * abs(Z_ideal)` in `_add_noise`)."""
@@ -369,6 +425,9 @@ def generate(gen_dir, untranslatable):
     zh = []
     translate_zhit(out, zh, untranslatable)
     out.append("def zhitKernels : List String := [" + ", ".join(f'"{n}"' for n in zh) + "]")
+    fw = []
+    translate_fit(out, fw, untranslatable)
+    out.append("def fitWeights : List String := [" + ", ".join(f'"{n}"' for n in fw) + "]")
     ka = []
     translate_kkauto(out, ka, untranslatable)
     out.append("def kkAutoKernels : List String := [" + ", ".join(f'"{n}"' for n in ka) + "]")
